@@ -17,11 +17,11 @@ CONFIG = {
     ],
     "mult_search": 3,
     "refuted": [],
-    "partial": ["C15_reflected_roundtrip holds for every descriptor set satisfying wf_desc (enums non-empty; split names of messages / enums / real oneofs pairwise distinct; JSON names per message distinct); C15_full_statement without wf_desc is not claimed (split-name collisions make the reader itself panic: known C18 finding)"],
+    "partial": ["C15_reflected_roundtrip holds under the hypothesis wf_keys (enums non-empty; split names of messages / enums / real oneofs pairwise distinct: a hypothesis, not a guarantee of a linked set; nothing is assumed about JSON or property names); C15_full_statement (a Definition) is neither proved nor refuted without it", "export_set models addSchemas only: APIFromImage's package bookkeeping (splitPackageParts errors, listed vs indirect packages, sub-packages) is outside the Coq model and covered by the correspondence stream only", "the export form is the schema type with scalar Kind / WKT name erased; the theorems' content is the copy tables (member names, not value expressions), the refTo environment of buildSchemas and the reader invariants"],
 }
 
 MANIFEST = {
     "text": "Theorems over a table-driven Gallina model of the schema export (ToJ5Root / ToJ5Field) and import (PackageSetFromSourceAPI): field-by-field and root-by-root inverse lemmas (every rule, list rule, ext, flatten flag, entity marker, any-membership, enum prefix / option info / info fields), lifted over the reference environment (every schema found again under its name exporting to the same form, nothing added, every reference resolved) and independence of the map iteration order of buildSchemas.",
-    "note": "Proved for every well-formed descriptor set (wf_desc) and every successful reflection of it: export, re-import, re-export gives exactly the same form with every reference resolved (C15_reflected_roundtrip, composing the reader model's invariant with the table-driven export/import model); field-by-field and root-by-root inverse lemmas; independence of the buildSchemas iteration order. Not claimed without wf_desc (split-name collisions). Inline field schemas are outside the model. Trusted: Coq kernel; translator (copy tables); harness.",
+    "note": "Proved under the hypothesis wf_keys (enums non-empty, split names of messages / enums / real oneofs distinct: the latter is not guaranteed by a linked set) for every successful reflection (model of SchemaSetFromFiles + addSchemas, not of APIFromImage's package routing): export, re-import, re-export gives exactly the same form with every reference resolved (C15_reflected_roundtrip, composing the reader model's invariant with the table-driven export/import model); field-by-field and root-by-root inverse lemmas; independence of the buildSchemas iteration order. Not claimed without wf_keys (split-name collisions). Inline field schemas are outside the model. Trusted: Coq kernel; translator (copy tables); harness.",
     "technique": "Rocq/Coq proof over a model that computes with copy tables regenerated from the Go composite literals + in-Coq differential correspondence (export, re-import, second export) in crash-isolated workers",
 }
